@@ -423,6 +423,7 @@ def c02(rep, tier):
     F = rep.rule('C02.f', 'every error record has a non-empty message and a location taken from a token, a node, the scanner\'s '
                           'file, the generator\'s current position, or the "-"/-1 placeholder', floor=20)
     ERR_RECS = ('Theo::ParseError', 'Theo::SyntaxError', 'Theo::CodegenResult::Error')
+    token_positions_rule(F, M, lib)
     for f in lib.functions:
         if f['tmpl'] not in ('none', 'inst'):
             continue
@@ -440,6 +441,74 @@ def c02(rep, tier):
                 else:
                     F.check(okm and okl, inst, 'message has literal text; location from %s' % why,
                             'malformed error record: %s' % ('empty message' if not okm else why), where)
+
+
+def value_leaves(M, f, e, depth=0):
+    """possible source expressions of a value: looks through single-definition locals and ?: """
+    e = strip_copies(strip_casts(e))
+    if e is None or depth > 6:
+        return [e]
+    if e.get('k') == 'cond':
+        return value_leaves(M, f, e['t'], depth + 1) + value_leaves(M, f, e['e'], depth + 1)
+    if e.get('k') == 'construct' and len(e.get('args') or []) in (1, 2) and 'basic_string' in (e.get('rec') or ''):
+        return value_leaves(M, f, e['args'][0], depth + 1)
+    if e.get('k') == 'ref' and e.get('dk') == 'var':
+        ds = M.defs(f).get(e['d'], [])
+        if ds and all(d[1] is not None for d in ds) and all(d[0] in ('init', 'assign') for d in ds):
+            out = []
+            for d in ds:
+                out.extend(value_leaves(M, f, d[1], depth + 1))
+            return out
+    return [e]
+
+
+def token_positions_rule(F, M, lib):
+    """tokens synthesised by the scanner driver take their position from a scanned token or the placeholder"""
+    scan = lib.fn('Theo::scan')
+    g = M.cfg(scan)
+    for e in walk_all_exprs(scan['body']):
+        cons = None
+        if e.get('k') == 'construct' and e.get('rec') == 'Theo::Token' and len(e['args']) == 4:
+            cons = (e['args'][2], e['args'][3])
+        elif e.get('k') == 'init' and e.get('rec') == 'Theo::Token':
+            fl = dict(e['fields'])
+            cons = (fl.get('file'), fl.get('line'))
+        if cons is None:
+            continue
+        where = '%s:%d' % (rel(lib, scan['file']), e['loc'][0])
+        inst = 'scan: synthesised token %s' % show(e)[:50]
+        bad = []
+        unk = []
+        for leaf in value_leaves(M, scan, cons[0]):
+            txt = show(leaf)
+            if leaf.get('k') == 'str':
+                if leaf['v'] != '-':
+                    bad.append('file name literal "%s"' % leaf['v'])
+            elif leaf.get('k') == 'member' and leaf['name'] in ('file', 'f', 'filename'):
+                pass
+            elif leaf.get('k') == 'ref' and leaf.get('dk') == 'param':
+                ev = g.ev(e)
+                from .genrules import guarded
+                if not guarded(g, ev, lambda c: (c.get('callee') or '').endswith('::contains') and leaf['name'] in show(c), True):
+                    bad.append('the caller-supplied name %s, which need not be a supplied file (e.g. a missing main file)' % leaf['name'])
+            else:
+                unk.append(txt)
+        for leaf in value_leaves(M, scan, cons[1]):
+            if leaf.get('k') == 'member' and leaf['name'] == 'line':
+                continue
+            v = leaf.get('v') if leaf.get('k') == 'int' else (-leaf['e']['v'] if leaf.get('k') == 'un' and leaf['op'] == '-' and leaf['e'].get('k') == 'int' else None)
+            if v == -1:
+                continue
+            if v is not None:
+                bad.append('line literal %d' % v)
+            else:
+                unk.append(show(leaf))
+        if bad:
+            F.violation(inst, 'position taken from %s: errors reported at this token name a location that is neither in a supplied file nor the "-"/-1 placeholder' % '; '.join(bad), where)
+        elif unk:
+            F.unknown(inst, 'cannot classify position source(s) %s' % unk, where)
+        else:
+            F.ok(inst, 'position copied from a scanned token or the "-"/-1 placeholder', where)
 
 
 def is_clamp(e):
@@ -532,6 +601,30 @@ def empty_witness(M, f, g, ev, seq):
     """A concrete reason to believe the sequence can be empty at ev: it is a local of this function that starts
     empty and some path from its declaration reaches ev without passing any push onto it."""
     s0 = strip_casts(seq)
+    # the code's own size test admits an empty sequence
+    sn = show(s0).replace(' ', '')
+    lo, hi = 0, 10 ** 9
+    tested = False
+    for cond, label, cn in g.guards_of(ev):
+        c = strip_casts(cond)
+        if c.get('k') == 'bin' and c['op'] in ('<', '<=', '>', '>=', '==', '!=') and show(strip_casts(c['l'])).replace(' ', '').replace('(int)', '') == sn + '.size()' \
+                and strip_casts(c['r']).get('k') == 'int' and isinstance(label, bool):
+            n, op = strip_casts(c['r'])['v'], c['op']
+            if not label:
+                op = {'<': '>=', '<=': '>', '>': '<=', '>=': '<', '==': '!=', '!=': '=='}[op]
+            tested = True
+            if op == '<':
+                hi = min(hi, n - 1)
+            elif op == '<=':
+                hi = min(hi, n)
+            elif op == '>':
+                lo = max(lo, n + 1)
+            elif op == '>=':
+                lo = max(lo, n)
+            elif op == '==':
+                lo, hi = max(lo, n), min(hi, n)
+    if tested and lo == 0 and hi >= 0:
+        return 'the size test guarding this use admits size() in [%d, %s]: an empty %s passes it' % (lo, hi if hi < 10 ** 9 else 'inf', show(s0))
     if s0.get('k') != 'ref' or s0.get('dk') != 'var':
         return None
     ds = M.defs(f).get(s0['d'], [])
